@@ -780,7 +780,8 @@ theorem run_value : ∀ (n : Node) (σ : St) (a : Nat → Val), WF n → NoDupH 
     simp only [Node.arity] at hin hdata
     have hnd : anyNd (σ.get .inp) srcs.length = false :=
       anyNd_false _ _ (fun k hk => by rw [hin k hk]; exact hdata k hk)
-    refine ⟨_, by simp [run, hnd], ?_, by simp [Inv], by simp [OutSync], ?_⟩
+    refine ⟨σ.set .out 0 (.app f ((List.range srcs.length).map (σ.get .inp))), by simp [run, hnd], ?_,
+      by simp [Inv], by simp [OutSync], ?_⟩
     · intro p k hp _; simp [hp]
     · intro o ho
       simp only [Node.nout] at ho
@@ -821,7 +822,7 @@ theorem run_value : ∀ (n : Node) (σ : St) (a : Nat → Val), WF n → NoDupH 
         (by
           intro k hk hkept
           rw [hu_get]
-          simp only [true_and, Nat.zero_le, Nat.zero_add, hk, hkept, and_self, if_true]
+          simp only [Nat.zero_le, Nat.zero_add, hk, hkept, and_self, if_true]
           rw [hui k hk hkept, hin k hk])
         (by intro jj o hj; omega)
     refine ⟨pushOuts rets 0 σb, by simp [run, hnd, hnd2, hrb], ?_, ?_, ?_, ?_⟩
@@ -861,7 +862,7 @@ theorem run_value : ∀ (n : Node) (σ : St) (a : Nat → Val), WF n → NoDupH 
         have hkept : kept body rets k = true := fwd_kept (by rw [← hxx]; exact List.getElem_mem ho)
         simp only [retVal]
         rw [hroot, hu_get]
-        simp only [true_and, Nat.zero_le, Nat.zero_add, hrw, hkept, and_self, if_true]
+        simp only [Nat.zero_le, Nat.zero_add, hrw, hkept, and_self, if_true]
         rw [hui k hrw hkept, hin k hrw]
         exact ⟨rfl, hdata k hrw⟩
       | out j oo =>
@@ -901,7 +902,7 @@ theorem runBody_value (kp : Nat → Bool) (na : Nat) (nouts : Nat → Nat) (a : 
       intro i hi
       rw [← harity] at hi
       have hs : n.srcs[i]? = some n.srcs[i] := by simp [hi]
-      rw [b5 i _ (Nat.zero_le _) (by simpa using hs)]
+      rw [b5 i _ (Nat.zero_le _) hs]
       have hw := hsrcs i _ hs
       have hok := hsok i _ hs
       unfold resolve fetched
@@ -931,13 +932,13 @@ theorem runBody_value (kp : Nat → Bool) (na : Nat) (nouts : Nat → Nat) (a : 
         simp only [SrcWF] at hw
         simp only [SrcOk] at hok
         simp only [srcVal]
-        exact ⟨hok rfl, hw⟩
+        exact ⟨hok trivial, hw⟩
       | none =>
         rw [hsi] at hw hok
         simp only [SrcWF] at hw
         simp only [SrcOk] at hok
         simp only [srcVal]
-        exact ⟨hok rfl, hw⟩
+        exact ⟨hok trivial, hw⟩
     obtain ⟨τ, hrun, hτroot, hτinv, hτos, hτvals⟩ :=
       run_value n ((fetchKid kp n j n.srcs 0 σ).sub j) (resolve n a acc) hwfn hnodup.1 (b4 true hinvn)
         (fun i hi => (hres i hi).1) (fun i hi => (hres i hi).2)
@@ -1006,5 +1007,144 @@ theorem runBody_value (kp : Nat → Bool) (na : Nat) (nouts : Nat → Nat) (a : 
       simp only [denoteBody]
       exact hvalsb jj o (by simp at hjj; omega) ho
 end
+
+
+/-! ## construction establishes the invariant -/
+
+theorem invBody_of_pointwise (h : Bool) (kp : Nat → Bool) (inp : Nat → Val) (ns : List Node) (b : Nat) (σ : St)
+    (hp : ∀ (t : Nat) (n : Node), ns[t]? = some n →
+      Inv h n (σ.sub (b + t)) ∧ ∀ i s, n.srcs[i]? = some s → SrcOk kp inp h n (σ.sub (b + t)) i s) :
+    InvBody h kp inp ns b σ := by
+  induction ns generalizing b with
+  | nil => simp [InvBody]
+  | cons n ns ih =>
+    simp only [InvBody]
+    have h0 := hp 0 n (by simp)
+    refine ⟨by simpa using h0.1, by simpa using h0.2, ih (b + 1) ?_⟩
+    intro t m ht
+    have := hp (t + 1) m (by simpa using ht)
+    have e : b + (t + 1) = b + 1 + t := by omega
+    rw [e] at this
+    exact this
+
+theorem setInKid_inp (body : List Node) (j i : Nat) (v : Val) (σ : St) (t i' : Nat) :
+    ((setInKid body 0 j i v σ).sub t).get .inp i' =
+      if t = j ∧ i' = i ∧ body[j]? ≠ none then v else (σ.sub t).get .inp i' := by
+  by_cases ht : t = j
+  · subst ht
+    cases hb : body[t]? with
+    | none => rw [setInKid_none body 0 t i v σ hb]; simp
+    | some n =>
+      have := setInKid_sub_target body 0 t i v σ n hb
+      rw [Nat.zero_add] at this
+      rw [this, setIn_get_inp]
+      by_cases hi : i' = i <;> simp [hi]
+  · rw [setInKid_sub_other body 0 j i v σ t (by omega)]
+    simp [ht]
+
+theorem setInKid_kidInv (h : Bool) (body : List Node) (j i : Nat) (v : Val) (σ : St) (t : Nat) (n : Node)
+    (hn : body[t]? = some n) (hi : Inv h n (σ.sub t)) : Inv h n ((setInKid body 0 j i v σ).sub t) := by
+  by_cases ht : t = j
+  · subst ht
+    have := setInKid_sub_target body 0 t i v σ n hn
+    rw [Nat.zero_add] at this
+    rw [this]; exact setIn_inv h n _ i v hi
+  · rw [setInKid_sub_other body 0 j i v σ t (by omega)]; exact hi
+
+/-- one round of the purge loop -/
+def purgeStep (body : List Node) (rets : List Ret) (k0 : Nat) (σ : St) : St :=
+  match link body rets k0 with
+  | .child j i => setInKid body 0 j i (σ.get .inp k0) σ
+  | _ => σ
+
+theorem purgePush_succ (body : List Node) (rets : List Ret) (m k0 : Nat) (σ : St) :
+    purgePush body rets (m + 1) k0 σ = purgePush body rets m (k0 + 1) (purgeStep body rets k0 σ) := by
+  simp only [purgePush, purgeStep]
+  cases link body rets k0 <;> rfl
+
+theorem purgeStep_spec (h : Bool) (body : List Node) (rets : List Ret) (k0 : Nat) (σ : St) :
+    (∀ p k, (purgeStep body rets k0 σ).get p k = σ.get p k) ∧ SameOut (purgeStep body rets k0 σ) σ ∧
+    (∀ t n, body[t]? = some n → Inv h n (σ.sub t) → Inv h n ((purgeStep body rets k0 σ).sub t)) ∧
+    (∀ t i, ((purgeStep body rets k0 σ).sub t).get .inp i =
+      if srcAt body t i = some (.arg k0) ∧ kept body rets k0 = false then σ.get .inp k0
+      else (σ.sub t).get .inp i) := by
+  unfold purgeStep
+  cases hl : link body rets k0 with
+  | ui =>
+    have hk : kept body rets k0 = true := by simp [kept, hl]
+    simp only
+    exact ⟨by intros; trivial, SameOut.refl σ, fun _ _ _ hi => hi, by intro t i; simp [hk]⟩
+  | gone =>
+    simp only
+    refine ⟨by intros; trivial, SameOut.refl σ, fun _ _ _ hi => hi, ?_⟩
+    intro t i
+    have := (link_gone hl).2 t i
+    simp [this]
+  | child j i =>
+    simp only
+    obtain ⟨hkf, hsrc, huniq⟩ := link_child hl
+    refine ⟨fun p k => setInKid_get _ _ _ _ _ _ _ _, setInKid_sameOut _ _ _ _ _ _,
+      fun t n hn hi => setInKid_kidInv h body j i _ σ t n hn hi, ?_⟩
+    intro t i'
+    rw [setInKid_inp]
+    have hbj : body[j]? ≠ none := by
+      intro e; simp [srcAt, e] at hsrc
+    by_cases hc : srcAt body t i' = some (.arg k0)
+    · have := huniq t i' hc
+      rw [if_pos ⟨this.1, this.2, hbj⟩, if_pos ⟨hc, hkf⟩]
+    · have hne : ¬ (t = j ∧ i' = i) := by
+        rintro ⟨rfl, rfl⟩; exact hc hsrc
+      rw [if_neg (by rintro ⟨x, y, _⟩; exact hne ⟨x, y⟩), if_neg (by rintro ⟨x, _⟩; exact hc x)]
+
+theorem purgePush_spec (h : Bool) (body : List Node) (rets : List Ret) : ∀ (m k0 : Nat) (σ : St),
+    (∀ p k, (purgePush body rets m k0 σ).get p k = σ.get p k) ∧
+    SameOut (purgePush body rets m k0 σ) σ ∧
+    (∀ t n, body[t]? = some n → Inv h n (σ.sub t) → Inv h n ((purgePush body rets m k0 σ).sub t)) ∧
+    (∀ t i, ((purgePush body rets m k0 σ).sub t).get .inp i =
+      match srcAt body t i with
+      | some (.arg k) =>
+        if k0 ≤ k ∧ k < k0 + m ∧ kept body rets k = false then σ.get .inp k else (σ.sub t).get .inp i
+      | _ => (σ.sub t).get .inp i) := by
+  intro m
+  induction m with
+  | zero =>
+    intro k0 σ
+    simp only [purgePush]
+    refine ⟨by intros; trivial, SameOut.refl σ, fun _ _ _ hi => hi, ?_⟩
+    intro t i
+    split
+    · rename_i k _
+      rw [if_neg (by rintro ⟨x, y, _⟩; omega)]
+    · rfl
+  | succ m ih =>
+    intro k0 σ
+    rw [purgePush_succ]
+    obtain ⟨a1, a2, a3, a4⟩ := purgeStep_spec h body rets k0 σ
+    obtain ⟨b1, b2, b3, b4⟩ := ih (k0 + 1) (purgeStep body rets k0 σ)
+    refine ⟨fun p k => (b1 p k).trans (a1 p k), b2.trans a2, fun t n hn hi => b3 t n hn (a3 t n hn hi), ?_⟩
+    intro t i
+    rw [b4 t i]
+    cases hs : srcAt body t i with
+    | none => simp only; rw [a4]; simp [hs]
+    | some s =>
+      cases s with
+      | arg k =>
+        simp only
+        rw [a1, a4, hs]
+        by_cases hk : k = k0
+        · subst hk
+          by_cases hkf : kept body rets k = false
+          · rw [if_neg (by rintro ⟨x, _⟩; omega), if_pos ⟨rfl, hkf⟩, if_pos ⟨by omega, by omega, hkf⟩]
+          · rw [if_neg (by rintro ⟨x, _⟩; omega), if_neg (by rintro ⟨_, x⟩; exact hkf x),
+              if_neg (by rintro ⟨_, _, x⟩; exact hkf x)]
+        · have h2 : ¬ (some (Src.arg k) = some (Src.arg k0) ∧ kept body rets k0 = false) := by
+            rintro ⟨e, _⟩; simp at e; exact hk e
+          rw [if_neg h2]
+          by_cases hc : k0 + 1 ≤ k ∧ k < k0 + 1 + m ∧ kept body rets k = false
+          · rw [if_pos hc, if_pos ⟨by omega, by omega, hc.2.2⟩]
+          · rw [if_neg hc, if_neg (by rintro ⟨x, y, z⟩; exact hc ⟨by omega, by omega, z⟩)]
+      | out a b => simp only; rw [a4]; simp [hs]
+      | const v => simp only; rw [a4]; simp [hs]
+      | none => simp only; rw [a4]; simp [hs]
 
 end PwVerif.Macro
